@@ -110,8 +110,9 @@ def impl_dual(c):
 
 def spec_check(ck, c, g, d, conn, tag="grid", mconn=None, report=True):
     """clauses of C18 on one dual connectivity (list of rows); returns the list of (clause, row index) that fail.
-    mconn: the rows of the exact faithful model (to tell the known algorithmic defect — the code's chord-angle order
-    differs from the azimuth order — from any other way of getting a ring wrong)"""
+    mconn: the rows of the exact faithful model (to tell the known algorithmic limitation — faces are ordered by the
+    azimuth of their centres, which leaves the umbrella order at a face with a reflex corner — from any other way of
+    getting a ring wrong)"""
     faces = [[x for x in r if x != FILL] for r in c["table"]]
     n_node = c["n_node"]
     inc = incident(faces, n_node)
@@ -423,14 +424,16 @@ def node_margins(c, g):
             continue
         n0 = C[fs[0]]
         nz = n0 - P[v]
+        nzp = nz - np.dot(nz, P[v]) * P[v]
         ncross = np.cross(n0, P[v])
         ang = []
         mside = 1.0
         for f in fs[1:]:
             dd = C[f] - P[v]
+            ddp = dd - np.dot(dd, P[v]) * P[v]
             side = float(np.dot(ncross, dd))
             mside = min(mside, abs(side) / (np.linalg.norm(ncross) * np.linalg.norm(dd) + 1e-300))
-            cs = float(np.dot(nz, dd) / (np.linalg.norm(nz) * np.linalg.norm(dd)))
+            cs = float(np.dot(nzp, ddp) / (np.linalg.norm(nzp) * np.linalg.norm(ddp)))
             a = math.acos(max(-1.0, min(1.0, cs)))
             ang.append(2 * math.pi - a if side > 0 else a)
         ang = sorted(ang + [0.0, 2 * math.pi])
@@ -490,7 +493,7 @@ def model_line(c, g):
     return "(%s %s %s)" % (sx(c["table"]), vecs_sx(v[0], v[1], v[2]), vecs_sx(v[3], v[4], v[5]))
 
 
-def run_model_parallel(ck, cmd, lines, workers=8):
+def run_model_parallel(ck, cmd, lines, workers=14):
     """the extracted driver is a line filter: split the lines over a few processes"""
     from concurrent.futures import ThreadPoolExecutor
     if len(lines) < 4 * workers:
@@ -702,11 +705,13 @@ def main(ck):
                           "counter-clockwise orientation was verified in exact rational arithmetic",
         "clauses_checked_on_impl": ["raises", "count", "nodes", "pad", "corners", "ring (closed grids)", "data_type",
                                     "data_dims", "data_values", "data_grid", "jit"],
-        "partial": "ring order is proved only under the hypothesis that the chord-angle order of _order_nodes equals the "
-                   "umbrella order (C18_ring_partial); the exact checker decides it for every generated mesh; face centres "
+        "partial": "ring order is proved only under the hypothesis that the azimuth order of the face centres (what _order_nodes "
+                   "measures since c8b893ff) equals the umbrella order (C18_ring_partial); the exact checker decides it for every generated mesh; face centres "
                    "are whatever Grid.face_lon/face_lat report (C04 owns them)"})
     ck.trusted += ["numba njit (= the Python semantics of the same loops; exercised with JIT on and off)",
-                   "np.cross / np.dot / np.linalg.norm / np.arccos modelled by exact rational sign and square comparisons; "
+                   "np.cross / np.dot / np.linalg.norm / np.arccos modelled by exact integer sign and square comparisons; the "
+                   "tangent-plane projection x - (x.n)n is modelled as the orthogonal projection (node_central is a unit vector up "
+                   "to rounding; C18_projection ties the reduced keys to the literal projected form); "
                    "model and implementation are compared only where the float decision is >= 1e-9 away from a tie",
                    "Grid.from_topology and Grid.face_lon/face_lat/face_x/y/z, node_x/y/z (inputs to the model)"]
     ck.assumptions += ["primal faces are simple, counter-clockwise (verified exactly per case), no duplicate nodes, node "
